@@ -186,6 +186,13 @@ def judge(sh, pattern, elements, branch, mode, path, impl, segs_hint=None, recor
             for e in elements:
                 if e[0] == 'bind':
                     sh.hit('matched-binding:%s%s' % (e[2] or '1', e[3]))
+        # what a match hands out belongs to the receiver, who may do with it what it likes: every list (also the empty one of
+        # an absent binding) is scribbled on - the next match must come with values of its own
+        if isinstance(r, dict):
+            for v in r.values():
+                if type(v) is list:
+                    v.append('<left behind by an earlier receiver>')
+                    sh.hit('handed-out-list-scribbled-on')
     return has_bind and segs is not None
 
 
